@@ -10,6 +10,7 @@
 -/
 import Z80.Proofs.Interrupt
 import Z80.Proofs.IM0
+import Z80.Proofs.FrameB
 import Z80.Proofs.Frame
 import Z80.Proofs.StepOf
 import Z80.Proofs.Families.Ctrl
@@ -104,6 +105,47 @@ theorem C06_im0_rst (s : St) (i : Interrupt) (hi : s.Interrupt = some i) (hm : s
 theorem C06_im0_call (s : St) (i : Interrupt) (hi : s.Interrupt = some i) (hm : s.Memory = .user) (hn : i.Type_ ≠ 0)
     (hf : s.IFF1 = true) (him : s.IM = 0) (lo hi' : U8) (hd : i.Data = [0xcd#8, lo, hi']) :
     Gen.Step s = Spec.stepKF Impl.koron s := im0_call s i hi hm hn hf him lo hi' hd
+
+
+-- mode 0 with ANY supplied bytes (bus layer) -------------------------------------------------
+
+/-- THE complete controller theorem: with a request pending — ANY type, ANY mode, ANY data, mode 0 with any supplied
+    instruction included — one Step of the regenerated code is one step of `Spec.stepKFB`: the abstract controller of
+    `C06_step`, except that mode 0 with supplied bytes is the RECORDED description of this implementation (one reference
+    instruction executed through the overlay bus, `Spec.im0StepB`).  Hence this code base deviates from the Z80's
+    interrupt behaviour in mode 0 with supplied bytes ONLY, and there exactly as recorded (KF-1, KF-2). -/
+theorem C06_step_any (s : St) (i : Interrupt) (hi : s.Interrupt = some i) (hm : s.Memory = .user) :
+    Gen.Step s = Spec.stepKFB Impl.koron s := by
+  by_cases h0 : (!isNMI i && s.IFF1 && s.IM == 0 && !i.Data.isEmpty) = true
+  · have hn : i.Type_ ≠ 0 := by
+      intro e; simp [isNMI, e] at h0
+    have hf : s.IFF1 = true := by
+      cases hh : s.IFF1 <;> simp [hh] at h0 ⊢
+    have him : s.IM = 0 := by
+      by_cases e : s.IM = 0
+      · exact e
+      · simp [e] at h0
+    have hd : i.Data ≠ [] := by
+      intro e; simp [e] at h0
+    rw [step_im0_any s i hi hn hf him hd]
+    simp [Spec.stepKFB, hi, h0]
+  · have hnot : NotIM0Data s i := by
+      by_cases hn : i.Type_ = 0
+      · exact .inl hn
+      by_cases hf : s.IFF1 = false
+      · exact .inr (.inl hf)
+      by_cases him : s.IM = 0
+      · right; right; right
+        cases hd : i.Data with
+        | nil => rfl
+        | cons a r =>
+          exfalso; apply h0
+          have hf' : s.IFF1 = true := by simpa using hf
+          simp [isNMI, hn, hf', him, hd]
+      · exact .inr (.inr (.inl him))
+    rw [C06_step s i hi hm hnot]
+    have : (!isNMI i && s.IFF1 && s.IM == 0 && !i.Data.isEmpty) = false := by simpa using h0
+    simp [Spec.stepKFB, hi, this]
 
 -- EI, DI, RETN, RETI -----------------------------------------------------------------
 
